@@ -259,6 +259,16 @@ func buildArg(a Arg, handles []value.Value) value.Value {
 	case "int":
 		return value.Int(a.I)
 	case "float":
+		switch a.S {
+		case "nan":
+			return value.Float(math.NaN())
+		case "inf":
+			return value.Float(math.Inf(1))
+		case "-inf":
+			return value.Float(math.Inf(-1))
+		case "-0":
+			return value.Float(math.Copysign(0, -1))
+		}
 		return value.Float(a.F)
 	case "str":
 		return value.String(a.S)
